@@ -24,17 +24,19 @@ Reject(what, exp, got) ==
 Keep == UNCHANGED <<tid, bad>>
 
 Rec(e) ==
-  LET new(cnt) == [t |-> e.t, o |-> e.o, d |-> e.d, cnt |-> NextCount(cnt, e.o), before |-> cnt, touched |-> FALSE, seen |-> TRUE]
+  LET new(cnt) == [t |-> e.t, o |-> e.o, d |-> e.d, cnt |-> NextCount(cnt, e.o), before |-> IF e.o = "reseterr" THEN 0 ELSE cnt,
+                   touched |-> FALSE, seen |-> TRUE]
   IN
-  IF e.id \notin DOMAIN st \/ ~st[e.id].seen
+  IF "fresh" \in DOMAIN e /\ ~e.fresh THEN Reject("restart-without-fresh-reconcile", TRUE, e.fresh)
+  ELSE IF e.id \notin DOMAIN st \/ ~st[e.id].seen
   THEN st' = Put(st, e.id, new(0)) /\ Keep
   ELSE LET p == st[e.id]
            dt == e.t - p.t
        IN
        IF p.o \in {"ok", "skip"} /\ ~p.touched THEN Reject("reconcile-without-notification", p, e)
-       ELSE IF p.o \in {"err", "panic"} /\ ~p.touched /\ ~(Lo(p.before) <= dt /\ dt <= Hi(p.before))
+       ELSE IF p.o \in {"err", "panic", "reseterr"} /\ ~p.touched /\ ~(Lo(p.before) <= dt /\ dt <= Hi(p.before))
             THEN Reject("backoff-envelope", [n |-> p.before, lo |-> Lo(p.before), hi |-> Hi(p.before)], dt)
-       ELSE IF p.o \in {"err", "panic"} /\ p.touched /\ dt > Hi(p.before)
+       ELSE IF p.o \in {"err", "panic", "reseterr"} /\ p.touched /\ dt > Hi(p.before)
             THEN Reject("backoff-envelope", [n |-> p.before, hi |-> Hi(p.before)], dt)
        ELSE IF p.o \in {"requeue", "requeueErr"} /\ ~p.touched /\ dt # p.d THEN Reject("requeue-interval", p.d, dt)
        ELSE IF p.o \in {"requeue", "requeueErr"} /\ p.touched /\ dt > p.d THEN Reject("requeue-interval", p.d, dt)
@@ -47,7 +49,7 @@ Touch(e) ==
 
 End(e) ==
   LET lost == {i \in DOMAIN st : st[i].touched /\ (st[i].o \in {"ok", "skip"} \/ ~st[i].seen)}
-      noretry == {i \in DOMAIN st : st[i].seen /\ st[i].o \notin {"ok", "skip"}}
+      noretry == {i \in DOMAIN st : st[i].seen /\ st[i].o \notin {"ok", "skip", "startlong"}}
   IN IF lost # {} THEN Reject("lost-notification", lost, "no reconcile")
      ELSE IF noretry # {} THEN Reject("retry-lost", noretry, "no retry until the end")
      ELSE UNCHANGED st /\ Keep
